@@ -43,7 +43,52 @@ R2 = {
  "C18_D": ("drained status channel discarded only when the consumer comes back", "jobs through the real master (enqueue + run_forever) in the worker's interpreter", True, ""),
 }
 
-for name, (what, needs, first, strengthening) in sorted(R2.items()):
+R3 = {
+ "C01_E": ("process-wide defaults memo keyed by module.__name__ of generated sweep classes", "two different sweeps over one element in one process, the second leaving a defaulted parameter un-swept, memo filled first by the other shape", True, ""),
+ "C01_F": ("probe node skips the context write when the probe result is falsy", "probe result exactly 0.0 / -0.0 / [] / {} / False / None", True, ""),
+ "C02_E": ("probe context_key registered in the key-origin table before the node's own parameters are classified", "sweep probe with a from_context variable whose key equals the node's own context_key", True, ""),
+ "C02_F": ("run-time resolution treats a None configuration value as unset (inspection still says 'configuration')", "node parameter explicitly configured as None", False, "the traceback-proven class of a real failure (resolve_runtime_value => UNRESOLVED, type gate => TYPE) now decides a flow failure even when the reference predicts success; before, a disagreement with the reference was only counted as a guard label"),
+ "C03_E": ("per-class sequence cache also caches from_context variables", "same Pipeline object run twice with another context sequence", True, ""),
+ "C03_F": ("sweep variables leak into non-computed parameters of the same name", "sweep variable named like a parameter of the wrapped processor that no expression computes", False, "sweep variable names are now also drawn from the wrapped processor's parameter names"),
+ "C04_E": ("rename:/delete: classes memoised by generated class name ('.' and '_' collide, a_to_b:c vs a:b_to_c)", "a configuration with a colliding sibling handled earlier in the same interpreter", False, "name-collision twins (separator toggled; _to_ moved) observed next to a third of the configurations, opposite orders in the process variants"),
+ "C04_F": ("commutative normalisation no longer descends into list-valued AST fields", "+/* chain inside call arguments, comparators, boolean operands or tuples, operands reordered", False, "expression templates with chains inside max/min/abs arguments, comparisons and conditional branches"),
+ "C05_E": ("sequence digest computed over a sorted copy", ">= 8 explicit values, middle positions permuted", False, "mutation operators sequence_swap_adjacent (every position) and sequence_reversed"),
+ "C05_F": ("leading/trailing whitespace stripped from string parameters before hashing", "string parameter values differing only in edge whitespace", False, "fine-grained value mutations: trailing/leading space, trailing newline, case, one ulp, sign, list order/length, dict key"),
+ "C06_E": ("JSONL driver writes ensure_ascii=False", "lone surrogate in a traced parameter / context value", True, "(reported through the odd-value table added for F29)"),
+ "C06_F": ("construction-time cleanup only for Exception", "KeyboardInterrupt-class abort raised by a processor constructor while nodes are instantiated", False, "fault kinds init_keyboard / init_abort / init_value: a component whose constructor raises a pre-built exception, armed for one process() call"),
+ "C07_E": ("data digest memoised by object identity", "in-place mutating operation", True, ""),
+ "C07_F": ("context delta compares truncated repr tokens", "detail repr without hash, value whose repr exceeds 200 characters changed only beyond that", False, "component VLongTailOp and long initial context values (81-element lists differing in the last element); detail level repr,context"),
+ "C08_E": ("relative source path resolved against the process working directory when it exists there", "relative path, cwd= different from the process cwd, same-named file in the process cwd", False, "decoy files with other content under the same relative names in the process working directory for half of the cases"),
+ "C08_F": ("max_runs pre-flight sizes a by_position block's source with the block mode", "by_position block, combinatorial source, product far above the cap", True, ""),
+ "C09_E": ("inputs ID hashes only the first MiB of a source file", "source file > 1 MiB edited beyond the first MiB with its size kept", False, "large-file clause: > 1 MiB of trailing blank lines, last two bytes rewritten in place, inputs ID must change"),
+ "C09_F": ("runtime spec-ID hashing NFC-normalises strings, inspect does not", "decomposed / compatibility Unicode in the run_space block", False, "label values contain e+U+0301, U+212B and a CJK compatibility ideograph"),
+ "C10_E": ("JSONL driver writes ensure_ascii=False (traced run raises UnicodeEncodeError)", "lone surrogate reaching the trace", True, "(odd-value table)"),
+ "C10_F": ("required-keys memo keyed by (node type, processor fqcn, parameter names)", "colliding factory-generated definition ran earlier in the process", True, "(fresh-interpreter baseline)"),
+ "C11_E": ("third and later operands of and/or never validated", "payload at operand index >= 2 of one flattened boolean chain", False, "family 'wide': every list-valued AST field with 3..5 entries and the interesting child at every index"),
+ "C11_F": ("per-evaluator compile cache ignores the variable set", "same evaluator, same text, covering set first", True, ""),
+ "C12_E": ("list-valued AST fields (Compare.ops / comparators, Call.args) sorted", "chained comparison with operators / comparators not in dump order", False, "chained comparisons as an expression kind (enumerated over three leaves, random, fuzz) with swap and operator-swap mutations"),
+ "C12_F": ("chain sort key case-folded", "two variable names differing only by case in one chain", False, "third variable named X in half of the random / fuzz shards"),
+ "C13_E": ("launch lookup memo ignores the attempt", "two attempts of one launch id in one aggregator", False, "retried launches: the CLI launch is run twice under one launch id (attempt 1, 2) and aggregated together"),
+ "C13_F": ("pipeline_start dropped when start_timestamp was already set by an early finalise", "SER before its pipeline_start with a finalise in between", False, "one long-lived aggregator finalised after every record is also fed the drawn permutations / interleavings / subsets"),
+ "C14_E": ("subscription takes a channel's whole backlog at once", "consumer leaving after one message while >= 2 are queued on the channel", False, "consumers that take k messages and close; scenario early_break_consumer; remaining messages must still be deliverable"),
+ "C14_F": ("exact-name fast path treats patterns without * or ? as literal", "fnmatch character class pattern", False, "patterns jobs.[ab], jobs.[!a], [jo]* and a channel literally named jobs.[ab]; sequential epilogue: an exhaustive subscription per pattern must leave nothing matching for '*'"),
+ "C15_E": ("Future registered after the job is put on the queue", "enqueuing thread stalled between put and registration", True, ""),
+ "C15_F": ("lru_cache of loaded YAML pipelines keyed by path", "same YAML path reused after the file was rewritten", False, "yaml_reuse schedule: one path is rewritten for the next job once the earlier job using it is done"),
+ "C16_E": ("probe node created keys no longer de-duplicated", "swept probe whose context_key equals one of its <var>_values keys", False, "context_key drawn from the sweep's own <var>_values keys; enumerated path sweep_probe_key_is_values_key"),
+ "C16_F": ("IO node dispatch tests sinks before sources (adapter factory still sources first)", "IO component inheriting a source base and a sink base", False, "dual-role components VDualStore / VDualPayloadStore in the enumerated library"),
+ "C17_E": ("--run-space-max-runs overwrites run_space.dry_run from the YAML", "dry_run in YAML + cap flag", True, ""),
+ "C17_F": ("cross-block duplicate key check runs before source keys are known", "later block brings the duplicate key through a source file", False, "invalidity classes rs_duplicate_via_source / rs_duplicate_via_source_first (C08 reports the same patch as invalid_spec_accepted)"),
+ "C18_E": ("adapter cache with weak keys whose values reference the key", "sweep on a DataSource with fresh Pipelines / queue", True, ""),
+ "C18_F": ("master never forgets the Future of a failed job", "queue way, jobs that fail at run time", False, "a third of the reuse / fresh / queue cases now use a pipeline whose every run raises (fresh exception object each time)"),
+}
+
+ALL = {}
+for k, v in R2.items():
+    ALL[k] = v + (2,)
+for k, v in R3.items():
+    ALL[k] = v + (3,)
+
+for name, (what, needs, first, strengthening, rnd) in sorted(ALL.items()):
     d = os.path.join(ROOT, "seeded", name)
     if not os.path.isdir(d):
         print("missing", name); continue
@@ -55,11 +100,11 @@ for name, (what, needs, first, strengthening) in sorted(R2.items()):
     suite = [l for l in rd("suite_patched.txt").splitlines() if " passed" in l]
     dp, dq = rd("demo_pristine.txt"), rd("demo_patched.txt")
     meta = {
-        "change": name, "property": prop, "round": 2, "what_changed": what, "needs_to_manifest": needs,
+        "change": name, "property": prop, "round": rnd, "what_changed": what, "needs_to_manifest": needs,
         "origin": "written by a sub-agent that saw only the property text and its own scratch worktree of /repo HEAD (with the fix: commits)",
         "confirmed_by_me": {
             "existing_suite_with_patch": suite[-1].strip("= ") if suite else "see suite_patched.txt",
-            "how": "tools/eval_seed2.sh: git apply in the scratch worktree /tmp/seed2_<id>, demo on pristine and patched tree (outputs kept), full pinned suite with the patch, then VERIF_REPO=<worktree> ./vcheck <id> --tier quick",
+            "how": f"tools/eval_seed{rnd}.sh: git apply in the scratch worktree /tmp/seed{rnd}_<id>, demo on pristine and patched tree (outputs kept), full pinned suite with the patch, then VERIF_REPO=<worktree> ./vcheck <id> --tier quick",
         },
         "caught_by": {"check": prop, "tier": "quick", "buckets": buckets, "summary": summ[-1] if summ else ""},
         "reported_by_first_version": first, "needed_strengthening": (not first), "strengthening": strengthening,
